@@ -75,7 +75,7 @@ pub fn stub_ident_end_scalar(input: &str, offset: usize) -> usize {
 const S_OPS: &[u8] = b"*.=>)/ a";
 const S_NUM: &[u8] = b"09_.eE+-af$";
 const S_TXT: &[u8] = b"'#$1a\n%_";
-const S_CMT: &[u8] = b"/*)}$ \na{";
+const S_CMT: &[u8] = b"/*)}$ \n\ra{";
 const S_DIR: &[u8] = b"ifdeEls }*)n";
 const S_WORD: &[u8] = b"aAeEnNdDsSmM_1 .";
 
@@ -157,7 +157,8 @@ harness! {
 /// W1: the real `count_leading_whitespace` == number of leading blank bytes (blank = code
 /// points <= U+0020 and U+3000), on fixed shapes mixing ASCII blanks, NUL, DEL, letters, the
 /// 3-byte U+3000 and other multi-byte characters. `shape`: `s` = symbolic 1-byte symbol,
-/// `I` = U+3000, `e` = U+00E9, `E` = U+3001 (same lead byte as U+3000), `4` = U+1F600.
+/// `I` = U+3000, `e` = U+00E9, `E` = U+3001 (same lead byte as U+3000), `N` = U+00A0 and `P` = U+2028
+/// (Unicode white space that is NOT a Delphi blank), `4` = U+1F600.
 fn w1_body(shape: &'static [u8]) {
     let mut v = Vec::with_capacity(16);
     let mut k = 0;
@@ -167,6 +168,8 @@ fn w1_body(shape: &'static [u8]) {
             b'I' => v.extend_from_slice("\u{3000}".as_bytes()),
             b'e' => v.extend_from_slice("\u{e9}".as_bytes()),
             b'E' => v.extend_from_slice("\u{3001}".as_bytes()),
+            b'N' => v.extend_from_slice("\u{a0}".as_bytes()),
+            b'P' => v.extend_from_slice("\u{2028}".as_bytes()),
             _ => v.extend_from_slice("\u{1F600}".as_bytes()),
         }
         k += 1;
@@ -198,7 +201,9 @@ w1! {
     c13_w1_blanks_IIs => (b"IIs"),
     c13_w1_blanks_sEs => (b"sEs"),
     c13_w1_blanks_ses => (b"ses"),
-    c13_w1_blanks_sI4 => (b"sI4")
+    c13_w1_blanks_sI4 => (b"sI4"),
+    c13_w1_blanks_sNs => (b"sNs"),
+    c13_w1_blanks_IPs => (b"IPs")
 }
 
 /// V2: the scalar identifier scan == reference (ASCII identifier bytes, every non-ASCII
